@@ -5314,10 +5314,17 @@ class Parameterized(metaclass=ParameterizedMetaclass):
         # recreated and point to the new instance
         if _param__private.watchers:
             param_watchers = _param__private.watchers
+            # A watcher on several parameters is one object listed under each
+            # of them; it has to stay one object for batched dispatch to call
+            # it once.
+            rebuilt = {}
             for p, attrs in param_watchers.items():
                 for attr, watchers in attrs.items():
                     new_watchers = []
                     for watcher in watchers:
+                        if id(watcher) in rebuilt:
+                            new_watchers.append(rebuilt[id(watcher)])
+                            continue
                         watcher_args = list(watcher)
                         if watcher.inst is not None:
                             watcher_args[0] = self
@@ -5326,7 +5333,8 @@ class Parameterized(metaclass=ParameterizedMetaclass):
                             watcher_args[2] = _m_caller(self, fn._watcher_name)
                         elif get_method_owner(fn) is watcher.inst:
                             watcher_args[2] = getattr(self, fn.__name__)
-                        new_watchers.append(Watcher(*watcher_args))
+                        rebuilt[id(watcher)] = Watcher(*watcher_args)
+                        new_watchers.append(rebuilt[id(watcher)])
                     param_watchers[p][attr] = new_watchers
 
         state.pop('param', None)
